@@ -123,6 +123,12 @@ func genC11(r *Rand, tier string) *Case {
 		cc.Steps = []Step{{Msgs: []pgwire.FMsg{{K: "ssl"}}}}
 		c.Variant = "ssl-inside-tls"
 	}
+	if r.Chance(1, 5) {
+		// the server asks for a client certificate without verifying it, and the
+		// client presents one: it proves nothing, the session is served as in plaintext
+		c.Server.TLSClientAuth = r.Pick("request", "require-any")
+		tc.Cert = c.Server.TLSClientAuth == "require-any" || r.Chance(2, 3)
+	}
 	cc.TLS = tc
 	if r.Chance(1, 2) {
 		// a client that takes its (simulated) time between steps: the upgraded
